@@ -115,7 +115,7 @@ func genC15(t *rapid.T) c15Case {
 				c.Ops = append(c.Ops, c15Op{Kind: "deposit", U: rapid.IntRange(0, 3).Draw(t, "fu2"), P: -1, Alt: true, Amt: rapid.SampledFrom([]int64{0, 1, 1, 1, 2}).Draw(t, "fusdt")})
 			}
 			if rapid.IntRange(0, 4).Draw(t, "fparams") == 0 {
-				c.Ops = append(c.Ops, c15Op{Kind: "params", What: rapid.IntRange(0, 11).Draw(t, "fpaction"), Amt: rapid.Int64Range(0, 2).Draw(t, "fpp"), Amt2: rapid.Int64Range(0, 3).Draw(t, "fpq"), Alt: rapid.IntRange(0, 3).Draw(t, "fpdel") == 0})
+				c.Ops = append(c.Ops, c15Op{Kind: "params", What: rapid.IntRange(0, 11).Draw(t, "fpaction"), Amt: rapid.Int64Range(0, 2).Draw(t, "fpp"), Amt2: rapid.Int64Range(0, 5).Draw(t, "fpq"), Alt: rapid.IntRange(0, 3).Draw(t, "fpdel") == 0})
 			}
 			for v := rapid.IntRange(0, 6).Draw(t, "fvotes"); v > 0; v-- {
 				c.Ops = append(c.Ops, c15Op{Kind: "vote", U: rapid.SampledFrom([]int{0, 1, 2, 3, 4, 4, 5, 5, 6, 6}).Draw(t, "fvoter"), P: -1, What: rapid.IntRange(0, 6).Draw(t, "fpattern")})
@@ -643,7 +643,7 @@ func runC15(c c15Case, rec *ev.Recorder) *Failure {
 			cp := fxgovtypes.CustomParams{
 				DepositRatio: []string{"0.000000000000000000", "0.100000000000000000", "0.500000000000000000", "1.000000000000000000"}[(op.What/4)%4],
 				VotingPeriod: dur([]int64{300, 1200, 7200}[op.Amt%3]),
-				Quorum:       []string{"0.050000000000000000", "0.250000000000000000", "0.400000000000000000", "0.950000000000000000"}[op.Amt2%4],
+				Quorum:       []string{"0.050000000000000000", "0.250000000000000000", "0.400000000000000000", "0.950000000000000000", "0.000000000000000000", "1.000000000000000000"}[op.Amt2%6],
 			}
 			if r := f.RunMsg(ctx, &fxgovtypes.MsgUpdateCustomParams{Authority: gov, MsgUrl: url, CustomParams: cp}); r.OK() {
 				custom[url] = cp
